@@ -47,7 +47,12 @@ func (authenticator *CertificateAuthenticator) Authenticate(conn Conn) (bool, er
 	if !ok {
 		return false, nil
 	}
-	for _, cert := range conState.PeerCertificates {
+	for n, cert := range conState.PeerCertificates {
+		if 0 < n {
+			// Only the client's own (leaf) certificate identifies the client,
+			// the other certificates are the intermediates it sent along.
+			break
+		}
 		if 0 < len(authenticator.commonName) {
 			if cert.Subject.CommonName == authenticator.commonName {
 				return true, nil
